@@ -20,11 +20,11 @@ for d in sorted(glob.glob(f"{V}/seeded/*")):
     if not os.path.exists(mp):
         continue
     m = json.load(open(mp))
-    summ = str(m.get("summary", "")).replace("\n", " ").replace("|", "/")[:260]
-    needs = str(m.get("needs", "")).replace("\n", " ").replace("|", "/")[:160]
-    res = m.get("check_result", "?") + ": " + str(m.get("check_detail", ""))[:200].replace("|", "/")
+    summ = str(m.get("summary", "")).replace("\n", " ").replace("|", "/")[:170]
+    needs = str(m.get("needs", "")).replace("\n", " ").replace("|", "/")[:110]
+    res = m.get("check_result", "?") + ": " + str(m.get("check_detail", ""))[:150].replace("|", "/")
     if m.get("check_result_after_strengthening"):
-        res += " — AFTER STRENGTHENING: " + m["check_result_after_strengthening"][:200].replace("|", "/")
+        res += " — AFTER STRENGTHENING: " + m["check_result_after_strengthening"][:170].replace("|", "/")
     print(f"| {os.path.basename(d)} | {summ} | {needs} | {res} |")
 print("\n### 11.7 Theorem inventory (`coq/prop/P_Cnn.v`; every one printed `Closed under the global context` at the last run)\n")
 print("| property | theorems |\n|---|---|")
